@@ -2086,9 +2086,13 @@ protected:    // interface for the derived class
             >::type first_completion_event;
             if (handled)
             {
+                // the deferred and message queues are handled by the caller once the
+                // completion transitions are done, not inside the completion step
                 self->process_event_internal(
                     first_completion_event(),
-                    source | ::boost::msm::back::EVENT_SOURCE_DIRECT);
+                    source | ::boost::msm::back::EVENT_SOURCE_DIRECT
+                           | ::boost::msm::back::EVENT_SOURCE_DEFERRED
+                           | ::boost::msm::back::EVENT_SOURCE_MSG_QUEUE);
             }
         }
 
